@@ -18,6 +18,9 @@ RULE = ('histories "build a term with variables -> bind some of them before the 
         'or an unbound variable and >= 2 uses; distinct = hash of the history')
 ASSUMPTIONS = ['reference interpreters A and B agree', 'API variables are bound by unifications held open (bind/unbind steps), '
                'queries started under such a binding finish before it is undone']
+RULE_ADDED = (' Added after the rounds of independently written changes (DESIGN.md 12.2): ' +
+              'a retract suspended under an older open enumeration; two predicates asserted from terms sharing a variable; the same term OBJECT asserted again after its variables were rebound; lists with open tails.')
+RULE = RULE + RULE_ADDED
 
 CONST = [A('a'), A('b'), I(1), NIL]
 
